@@ -31,7 +31,7 @@ def cmap(m):
 
 
 def calt(a):
-    return '(mkA %s %s)' % (cstr(a['id']), cmap(a.get('criteria') or {}))
+    return '(mkA %s %s)' % (cstr(a.get('id') or ''), cmap(a.get('criteria') or {}))
 
 
 def ctype(t):
@@ -139,6 +139,9 @@ def cenv(streams, exps):
 # ---- observed responses -------------------------------------------------------------------------
 
 def cevaluation(ev):
+    if not isinstance(ev, dict):
+        # an entry without an evaluation (a blank slot in the result): emitted as a value no model entry can equal
+        return '(EV nan)'
     if 'ascendingIndex' in ev:
         return '(EE %s %s)' % (cZ(ev['ascendingIndex']), cZ(ev['descendingIndex']))
     if 'comparedWith' in ev:
@@ -147,11 +150,11 @@ def cevaluation(ev):
         return '(EA %s %s)' % (cmap(ev['notSatisfiedThreshold'] or {}), cZ(ev['thresholdsIndex']))
     if 'satisfiedThresholds' in ev:
         return '(ES %s %s)' % (cmap(ev['satisfiedThresholds'] or {}), cZ(ev['thresholdsIndex']))
-    return '(EV %s)' % fhex(ev['value'])
+    return '(EV %s)' % (fhex(ev['value']) if 'value' in ev else 'nan')
 
 
 def centry(e):
-    return '(mkE %s %s %s)' % (calt(e['alternative']), cevaluation(e['evaluation']),
+    return '(mkE %s %s %s)' % (calt(e.get('alternative') or {'id': ''}), cevaluation(e.get('evaluation')),
                                clist(cstr(s) for s in (e.get('betterThanOrSameAs') or [])))
 
 
